@@ -289,7 +289,7 @@ func C09Render(toks []C09Tok, seps []string) string {
 	return sb.String()
 }
 
-var c09Comments = []string{"# c", "#", "# ) ] }", "# ( [ {", `# "q`, "# | .a + 1", "## x # y", "# and or", "#\t tab", "# .a = 1 | del(.b)"}
+var c09Comments = []string{"# see C:\\data\\", "# x \\", "#\\", "# c", "#", "# ) ] }", "# ( [ {", `# "q`, "# | .a + 1", "## x # y", "# and or", "#\t tab", "# .a = 1 | del(.b)"}
 
 // C09Layouts: the kinds of layout variants.
 var C09Layouts = []string{"dense", "spacey", "newlines", "tabs", "comments", "mixed"}
